@@ -79,7 +79,7 @@ def run(ctx):
     q = ctx.quick
     ctx.assumptions += [
         "the reservation cursor starts at the temporary-mapping page (its initial value in addr_space.go); the harness resets it to that value at the start of every case",
-        "the recording map seam has a failure budget K chosen by the case (it fails on call K+1): satisfiable huge region sizes (2^32 pages and more, up to the remaining address space) are generated with small K, and the mapper must then have issued exactly the first K+1 consecutive pairs and return the seam's error; after a seam failure the statement does not say whether the reservation is kept, so later regions are only required to lie below the last SUCCESSFUL one",
+        "the recording map seam has a failure budget K chosen by the case (it fails on call K+1): satisfiable huge region sizes (2^32 pages and more, up to the remaining address space) are generated with small K, and the mapper must then have issued K+1 distinct members of the expected pair set (in any order) and return the seam's error; after a seam failure the statement does not say whether the reservation is kept, so later regions are only required to lie below the last SUCCESSFUL one",
         "trusted Go: the recording map seam and the event logger in harness/vmm/c07_addrspace_test.go (no expected results in them)",
         "a request that fits is not required to succeed (the statement only constrains successes and non-fitting requests)",
     ]
@@ -94,7 +94,9 @@ def run(ctx):
     else:
         # every size, all request kinds, seam budgets 0/1/16, sequences of 2;  every size, plain reservations, sequences of 3
         futs = [pool.submit(ctx.model_check, d, "MCAddrSpace", "MCAddrSpace6Budgets", timeout=900, workers=8),
-                pool.submit(ctx.model_check, d, "MCAddrSpace", "MCAddrSpace6Res3", timeout=900, workers=8)]
+                pool.submit(ctx.model_check, d, "MCAddrSpace", "MCAddrSpace6Res3", timeout=900, workers=8),
+                # design variant that maps regions top-down: the order of map calls is not part of the statement
+                pool.submit(ctx.model_check, d, "MCAddrSpace", "MCAddrSpace6TopDown", timeout=900, workers=8)]
     # (MCAddrSpace6Res4.cfg: plain reservations, sequences of 4, 312 639 states - measured once, too slow for the tier budget)
     bugs = ["RoundUpWraps", "PageCountTruncated"] if q else \
            ["RoundUpWraps", "NoRoundUp", "RoundDown", "DecrementBeforeTest", "ReturnOldCursor", "PageCountUnrounded",
